@@ -307,6 +307,13 @@ def run_case(desc, V):
         same('(rx / ry) ** -2', lambda: (rx / ry) ** -2, Y ** 2 / X ** 2, 'edge|pow-negative')
         same('x ** -1', lambda: x ** -1, 1 / X, 'edge|polynomial-negative-power')
         same('1 / x', lambda: 1 / x, 1 / X, 'edge|number-over-polynomial')
+        # (f) == between the two classes never equates different functions (either operand order, also !=)
+        for tag, l, r in (('x == x/y', x, rx / ry), ('x/y == x', rx / ry, x), ('x*x == x*x/(3y)', x * x, (rx * rx) / (ry * 3)), ('x/y == y', rx / ry, y)):
+            try:
+                if (l == r) or not (l != r):
+                    claims.append(Fail(f'eq-mixed[{tag}]', f'{tag} is True although the two objects denote different functions', fkey='edge|eq-mixed-classes'))
+            except Exception:  # noqa  (refusing the comparison is not equating)
+                pass
         # (e) the two classes in one expression
         same('(rx / ry) * x', lambda: (rx / ry) * x, X ** 2 / Y, 'edge|mixed-classes')
         same('x * (rx / ry)', lambda: x * (rx / ry), X ** 2 / Y, 'edge|mixed-classes')
